@@ -122,6 +122,12 @@ class Mutator(ast.NodeTransformer):
         return node
 
 
+# C18's acceptance sweep is cheap (a few seconds) and catches the mutants that simply make a well-formed call raise
+for _f, _lst in REL.items():
+    if "C18" not in _lst and _f not in ("plotter.py", "excel_io.py", "solution.py"):
+        _lst.insert(0, "C18")
+
+
 def all_sites():
     out = []
     for fn in sorted(REL):
